@@ -117,13 +117,21 @@ func execC17(hist []int, env *envdfs.Env, shape ksim.Shape) (viol []Viol, log st
 		// WaitForPendingACKs runs: the other ops' oracles here assume a fault-free socket
 		sim.NoDeviations = false
 		sim.FaultsOnly = true
+		sim.WrongTypeToo = true
 		sim.ResetOp()
 		err := c.WaitForPendingACKs()
 		sim.NoDeviations = true
 		faulted := false
+		wrongType := false
 		for _, d := range sim.Devs {
+			if d == ksim.DevWrongType {
+				wrongType = true // the errno word of that message is not an acknowledgement's: any error will do
+			}
 			if ksim.MustFail(d) {
 				faulted = true
+			}
+			if d == ksim.DevWrongType && err == nil {
+				fail("C17 wait-nil-after-wrong-type", "%s returned nil although the reply to a pending request was not an acknowledgement", label)
 			}
 		}
 		if len(pending) == 0 {
@@ -157,7 +165,7 @@ func execC17(hist []int, env *envdfs.Env, shape ksim.Shape) (viol []Viol, log st
 				break
 			}
 		}
-		if firstErr != 0 {
+		if firstErr != 0 && !wrongType {
 			if err == nil || !errors.Is(err, syscall.Errno(firstErr)) {
 				fail("C17 wait-wrong-error", "%s consumed an ACK with errno %d (request %d) but returned %v", label, firstErr, pending[firstIdx].Seq, err)
 			}
